@@ -90,8 +90,8 @@ std::string ctorChecks(const GSpec &s, std::string &observer, StepFacts &facts) 
     // the sequence handed to the constructors (core indices, no padding)
     std::vector<GEdge> seq;
     for (auto e : s.edges) {
-        if (e.remove || e.force)
-            continue; // a container of edges has no removals / forced insertions
+        if (e.remove || e.force || e.set)
+            continue; // a container of edges has no removals / forced insertions / value updates
         e.i -= (unsigned)s.padFront;
         e.j -= (unsigned)s.padFront;
         seq.push_back(e);
